@@ -66,7 +66,7 @@ def build_plan(tier, nruns=None, seed=0):
             plan.append(("cold", None, i % 3 != 0))
         for i in range(6):
             plan.append(("cold-order", pr.randrange(720), False))
-        directed = (("crosssuite", 32), ("sharedvals", 48), ("classchurn", 48), ("soak", 6))
+        directed = (("crosssuite", 28), ("sharedvals", 48), ("classchurn", 48), ("soak", 6))
     else:
         for rep in range(3):
             for t in tps:
@@ -95,7 +95,7 @@ def build_plan(tier, nruns=None, seed=0):
     def heavy(e):
         if e[0] in ("samekind", "firstuse"):
             return G.BY_KIND[e[1]].cost >= 100
-        return e[0] in ("random-heavy", "cold", "cold-order", "soak")
+        return e[0] in ("random-heavy", "cold", "cold-order", "soak", "crosssuite")
     if tier == "quick":
         first = [e for e in plan if heavy(e)]
         rest = [e for e in plan if not heavy(e)]
@@ -146,7 +146,7 @@ def make_spec(server, seed, index, tier, entry):
     elif scen == "sharedvals":
         spec = g.scn_sharedvals(faults=faults)
     elif scen == "soak":
-        spec = g.scn_soak(n=300 if not thorough else rng.choice([300, 600, 1100]),
+        spec = g.scn_soak(n=380 if not thorough else rng.choice([380, 600, 1100]),
                           max_cost=12.0 if not thorough else rng.choice([12.0, 12.0, 120.0]),
                           kinds=[param] if param else None)
     elif scen == "classchurn":
@@ -428,10 +428,27 @@ def main():
     deadline = job.get("deadline_s")
     want_records = bool(job.get("want_records"))
     nsamples = 0
+    claim_dir = job.get("claim_dir")
+    mine = set()
+
+    def claimed(i):
+        """dynamic load balance: all workers of a process class walk the same ordered
+        list and claim an index by creating its file (what a run does is a function
+        of its index, not of the worker that happens to execute it)"""
+        if not claim_dir:
+            return True
+        try:
+            os.close(os.open(os.path.join(claim_dir, str(i)), os.O_CREAT | os.O_EXCL, 0o600))
+            return True
+        except FileExistsError:
+            return False
     for index in job["indices"]:
         if deadline is not None and time.monotonic() - t_start > deadline:
             print(json.dumps({"type": "deadline", "next_index": index}))
             break
+        if not claimed(index):
+            continue
+        mine.add(index)
         line = {"type": "run", "index": index}
         try:
             spec = make_spec(server, seed, index, tier, entry_of(index))
@@ -494,9 +511,13 @@ def main():
             line["reproduced"] = True
         print(json.dumps(line))
         sys.stdout.flush()
+    nre = 0
     for index in job.get("recheck") or []:
         if deadline is not None and time.monotonic() - t_start > deadline:
             break
+        if index in mine or nre >= 2:
+            continue
+        nre += 1
         try:
             spec = make_spec(server, seed, index, tier, entry_of(index))
             out = execute(server, spec, want_cov=False)
